@@ -267,6 +267,20 @@ PROPS = {
         real_vs_stub="real: Repository load paths, index, pack.List, crypto, zstd, cache backend; simulated: object store with corrupting reads",
         assumptions=SIM_ASSUME,
     ),
+    "C33": dict(
+        pkg="cmd/restic", test="TestVerifC33", level="fault_enumeration", quick_s=60, thorough_s=900,
+        text="histories of complete and crashed backups and optionally a crashed earlier repair (overlapping index files), then at-rest damage "
+             "(index files deleted, bit-flipped or truncated; packs deleted, truncated or with a damaged header/length field), then the real "
+             "`repair index` with and without --read-all-packs, scheduled and in a quarter of the runs with transient read/list errors; an independent "
+             "decoder lists every pack whose header is readable; the durable index afterwards contains exactly those blobs at exactly their "
+             "offsets and lengths and nothing for missing or unreadable packs; a monitor inside the store sees that no pack file is removed",
+        note="without --read-all-packs restic trusts existing decodable index entries of packs whose size matches; the generator does not forge "
+             "decodable-but-wrong index entries",
+        design_ref="3 / C33",
+        rule="one run = configuration x history x damage set x read-all-packs x faults; distinct = distinct (case, event-log hash)",
+        real_vs_stub=L_REAL,
+        assumptions=SIM_ASSUME,
+    ),
     "C35": dict(
         pkg="internal/backend/retry", test="TestVerifC35", level="fault_enumeration", quick_s=30, thorough_s=600,
         text="the real retry backend with its real back-off on the simulated clock (15-minute budget, both settings of the backend-error-redesign "
